@@ -23,9 +23,13 @@ VARIABLES l, world
 Ev(x) == [k |-> x.k, m |-> x.m, self |-> x.self, args |-> x.args]
 Obs(x) == [p |-> x.p, r |-> x.r, w |-> x.w]
 
+\* a world rejected earlier (an object violating its type invariant, views
+\* that disagree) has been reported at the line that produced it; calls made
+\* in such a world are not judged (the specification says nothing about them)
+Sane(w) == WorldOK(w) /\ \A i \in 1..Len(w) : DOMAIN w[i] \subseteq {"kind", "s", "c", "cap", "closed", "slot"}
 Good(x) == /\ x.pc # "timeout"               \* every call returns
-           /\ WorldOK(x.w)
-           /\ Accepts(world, Ev(x), Obs(x))
+           /\ Sane(x.w)
+           /\ (Sane(world) => Accepts(world, Ev(x), Obs(x)))
 
 TraceInit == l = 1 /\ world = <<>>
 
